@@ -56,7 +56,8 @@ Lemma asm_NVol h buf kids st :
   match set_polarity (fst st) (fv_polarity (v_attrs h)) with
   | None => Err E_POLARITY
   | Some pol0 =>
-    do ks <- asm_elems kids (pol0, snd st); let '(kids', st1) := ks in vol_asm h buf kids' st1
+    do ks <- asm_elems kids (pol0, false); let '(kids', st1) := ks in
+    do r <- vol_asm h buf kids' st1; let '(n', st2) := r in Ok (n', (fst st2, snd st))
   end.
 Proof. reflexivity. Qed.
 
@@ -132,6 +133,7 @@ Ltac sec_start t body rest :=
     with (@Ok (Z * Z) (4, 4 + zlen body)) by (destruct (known_section t); reflexivity);
   cbn [bind];
   replace (4 + zlen body + zlen rest <? 4 + zlen body) with false by lia;
+  replace (4 + zlen body <? 4) with false by lia;
   rewrite !sec_sub.
 
 Lemma sec_ok_leaf t body : leaf_type t = true -> 0 <= t < 256 -> bytes_ok body = true ->
@@ -476,6 +478,7 @@ Proof.
   rewrite F0, F16, F17, F18, F19, F20, F23.
   replace (24 + zlen body =? 16777215) with false by lia. cbn [bind andb].
   replace (24 + zlen body + zlen rest <? 24 + zlen body) with false by lia.
+  replace (24 + zlen body <? 24) with false by lia.
   rewrite Hnv. cbn [bind].
   rewrite <- Lf. rewrite (sub_app_here fb rest (zlen fb) eq_refl). rewrite Lf.
   reflexivity.
@@ -802,6 +805,622 @@ Proof.
   cbn [fst snd] in E1, E2. rewrite E1. rewrite file_bytes_raw. fold ckh ckf.
   replace (16777215 <? 24 + zlen body) with false by lia.
   eexists; eexists. split; [reflexivity|]. exact E2.
+Qed.
+
+(* ---------- volumes: erased bytes ---------- *)
+
+Lemma repeatz_app x a b : repeatz x a ++ repeatz x b = repeatz x (a + b).
+Proof. induction a as [|a IH]; cbn [repeatz app Nat.add]; [reflexivity|]. rewrite IH. reflexivity. Qed.
+
+Lemma zrepeat_app x a b : 0 <= a -> 0 <= b -> zrepeat x a ++ zrepeat x b = zrepeat x (a + b).
+Proof. intros. unfold zrepeat. rewrite repeatz_app. f_equal. lia. Qed.
+
+Lemma firstn_repeatz x k n : (k <= n)%nat -> firstn k (repeatz x n) = repeatz x k.
+Proof.
+  revert n; induction k as [|k IH]; intros n H; [reflexivity|].
+  destruct n as [|n]; [lia|]. cbn [repeatz firstn]. rewrite IH by lia. reflexivity.
+Qed.
+
+Lemma skipn_repeatz x k n : skipn k (repeatz x n) = repeatz x (n - k).
+Proof.
+  revert n; induction k as [|k IH]; intros n; [rewrite Nat.sub_0_r; reflexivity|].
+  destruct n as [|n]; [reflexivity|]. cbn [repeatz skipn]. apply IH.
+Qed.
+
+Lemma sub_zrepeat x off len n : 0 <= off -> 0 <= len -> off + len <= n ->
+  sub off len (zrepeat x n) = zrepeat x len.
+Proof.
+  intros. unfold sub, zfirstn, zskipn, zrepeat. rewrite skipn_repeatz. apply firstn_repeatz. lia.
+Qed.
+
+Lemma forallb_repeatz (f : Z -> bool) x n : f x = true -> forallb f (repeatz x n) = true.
+Proof. intros H. induction n; cbn [repeatz forallb]; [reflexivity|]. rewrite H, IHn. reflexivity. Qed.
+
+Lemma bytes_ok_zrepeat x n : 0 <= x < 256 -> bytes_ok (zrepeat x n) = true.
+Proof. intros. apply forallb_repeatz. unfold byte_ok. lia. Qed.
+
+Lemma rd_zrepeat x off w n : 0 <= off -> off + Z.of_nat w <= n ->
+  rd off w (zrepeat x n) = le_dec (zrepeat x (Z.of_nat w)).
+Proof. intros. unfold rd. rewrite sub_zrepeat by lia. reflexivity. Qed.
+
+(* erased free space of at least a header's length parses as "no more files" *)
+Lemma parse_free d n : 24 <= n -> parse_file (S d) 255 (zrepeat 255 n) = Ok (None, 255).
+Proof.
+  intros Hn. rewrite parse_file_S. unfold file_body.
+  rewrite zlen_zrepeat by lia. replace (n <? 24) with false by lia.
+  rewrite !(rd_zrepeat 255 20 3) by (change (Z.of_nat 3) with 3; lia).
+  change (le_dec (zrepeat 255 (Z.of_nat 3))) with 16777215.
+  change (16777215 =? 16777215) with true. cbv iota.
+  destruct (n <? 32) eqn:E.
+  - unfold zrepeat at 1. rewrite (forallb_repeatz (fun x => x =? 255)) by reflexivity. cbn [bind andb].
+    change (U64 - 1 =? U64 - 1) with true. reflexivity.
+  - rewrite !(rd_zrepeat 255 24 8) by (change (Z.of_nat 8) with 8; lia).
+    change (le_dec (zrepeat 255 (Z.of_nat 8))) with (U64 - 1). cbn [bind andb].
+    change (U64 - 1 =? U64 - 1) with true. reflexivity.
+Qed.
+
+(* ---------- volumes: the file loop ---------- *)
+
+Lemma align8_spec v : 0 <= v -> v <= align8 v < v + 8 /\ (align8 v) mod 8 = 0.
+Proof.
+  intros Hv. unfold align8, align.
+  pose proof (Z.div_mod (v + 8 - 1) 8 ltac:(lia)) as D.
+  pose proof (Z.mod_pos_bound (v + 8 - 1) 8 ltac:(lia)) as B.
+  split; [lia|]. apply Z.mod_mul. lia.
+Qed.
+
+Lemma align8_unique u a : 0 <= u -> u <= a < u + 8 -> a mod 8 = 0 -> align8 u = a.
+Proof.
+  intros Hu Ha Hm. destruct (align8_spec u Hu) as [B M].
+  pose proof (Z.div_mod a 8 ltac:(lia)) as Da. rewrite Hm in Da.
+  pose proof (Z.div_mod (align8 u) 8 ltac:(lia)) as Db. rewrite M in Db. lia.
+Qed.
+
+Lemma align8_add a v : 0 <= a -> 0 <= v -> a mod 8 = 0 -> align8 (a + v) = a + align8 v.
+Proof.
+  intros Ha Hv Hm. unfold align8, align.
+  pose proof (Z.div_mod a 8 ltac:(lia)) as D. rewrite Hm in D.
+  replace (a + v + 8 - 1) with ((v + 8 - 1) + (a / 8) * 8) by lia.
+  rewrite Z.div_add by lia. lia.
+Qed.
+
+Definition file_ok_at (d : nat) (fb : bytes) : Prop :=
+  bytes_ok fb = true /\ 24 <= zlen fb < 16777215 /\
+  forall rest,
+    exists h kids, parse_file d 255 (fb ++ rest) = Ok (Some (NFile h fb kids), 255) /\
+      f_ext h = zlen fb /\ f_attr h = rd 19 1 fb /\
+      exists h' kids', asm (NFile h fb kids) (255, false) = Ok (NFile h' fb kids', (255, false)) /\
+                       f_attr h' = f_attr h.
+
+Lemma Forall_file_ok_at l : Forall file_ok l ->
+  exists d0, forall d, (d0 <= d)%nat -> Forall (file_ok_at d) l.
+Proof.
+  induction 1 as [|f r Hf Hr (d1 & IH)].
+  - exists 0%nat. intros; constructor.
+  - destruct Hf as (Ob & Hl & d2 & H2). exists (Nat.max d1 d2). intros d Hd.
+    constructor; [|apply IH; lia]. split; [exact Ob|]. split; [exact Hl|].
+    intros rest. apply H2. lia.
+Qed.
+
+Definition node_attr (n : node) : Z := match n with NFile h _ _ => f_attr h | _ => 0 end.
+
+Lemma zlen_flay_cons f r :
+  zlen (flay (f :: r)) = align8 (zlen f) + zlen (flay r).
+Proof.
+  cbn [flay]. pose proof (zlen_nonneg f) as Hf. destruct (align8_spec (zlen f) Hf) as [B _].
+  rewrite !zlen_app, zlen_zrepeat by lia. lia.
+Qed.
+
+Lemma files_loop_flay d files : Forall (file_ok_at (S d)) files ->
+  forall free rest P u n, 0 <= free -> 0 <= u -> u <= zlen P < u + 8 -> (zlen P) mod 8 = 0 ->
+  (length files < n)%nat ->
+  exists kids fs,
+    files_loop (parse_file (S d)) n (P ++ flay files ++ zrepeat 255 free ++ rest)
+               (zlen P + zlen (flay files) + free) 255 u = Ok (kids, 255, fs) /\
+    exists kids', asm_elems kids (255, false) = Ok (kids', (255, false)) /\
+      map node_buf kids' = files /\ map node_attr kids' = map (rd 19 1) files.
+Proof.
+  induction 1 as [|f r Hf Hr IH]; intros free rest P u n Hfree Hu HP HM Hn.
+  - destruct n as [|n]; [cbn in Hn; lia|]. cbn [flay app]. change (zlen (@nil Z)) with 0.
+    cbn [files_loop].
+    rewrite (align8_unique u (zlen P)) by lia.
+    destruct (u + 24 <=? zlen P + 0 + free) eqn:E1.
+    + destruct (zlen P + 0 + free <? zlen P + 24) eqn:E2.
+      * exists [], 0. split; [reflexivity|]. exists []. repeat split; reflexivity.
+      * replace (zlen P + 0 + free - zlen P) with free by lia.
+        assert (Es : sub (zlen P) free (P ++ zrepeat 255 free ++ rest) = zrepeat 255 free).
+        { rewrite (sub_app_skip P _ (zlen P) free (zlen P)) by lia. rewrite Z.sub_diag.
+          apply sub_app_here. apply zlen_zrepeat; lia. }
+        rewrite Es. rewrite parse_free by lia. cbn [bind].
+        eexists [], _. split; [reflexivity|]. exists []. repeat split; reflexivity.
+    + exists [], 0. split; [reflexivity|]. exists []. repeat split; reflexivity.
+  - destruct n as [|n]; [cbn in Hn; lia|]. cbn [length] in Hn.
+    destruct Hf as (Ob & Hl & Hp).
+    pose proof (zlen_nonneg f) as Hfn. destruct (align8_spec (zlen f) Hfn) as [Bf Mf].
+    pose proof (zlen_nonneg (flay r)) as Hrn.
+    rewrite zlen_flay_cons.
+    set (len := zlen P + (align8 (zlen f) + zlen (flay r)) + free).
+    cbn [files_loop].
+    replace (u + 24 <=? len) with true by (unfold len; lia).
+    rewrite (align8_unique u (zlen P)) by lia.
+    replace (len <? zlen P + 24) with false by (unfold len; lia).
+    (* the bytes handed to the file parser: the rest of the volume *)
+    set (pad := zrepeat 255 (align8 (zlen f) - zlen f)).
+    assert (Lpad : zlen pad = align8 (zlen f) - zlen f) by (apply zlen_zrepeat; lia).
+    assert (Es : sub (zlen P) (len - zlen P) (P ++ flay (f :: r) ++ zrepeat 255 free ++ rest)
+                 = f ++ (pad ++ flay r ++ zrepeat 255 free)).
+    { rewrite (sub_app_skip P _ (zlen P) _ (zlen P)) by lia. rewrite Z.sub_diag.
+      cbn [flay]. fold pad.
+      replace ((f ++ pad ++ flay r) ++ zrepeat 255 free ++ rest)
+        with ((f ++ pad ++ flay r ++ zrepeat 255 free) ++ rest) by (rewrite <- !app_assoc; reflexivity).
+      apply sub_app_here. rewrite !zlen_app, Lpad, zlen_zrepeat by lia. unfold len. lia. }
+    rewrite Es.
+    destruct (Hp (pad ++ flay r ++ zrepeat 255 free)) as (h & ks & Ep & Ee & Eat & h' & ks' & Ea & Eat').
+    rewrite Ep. cbn [bind file_ext]. rewrite Ee. replace (zlen f =? 0) with false by lia.
+    (* next iteration: P' = P ++ f ++ pad *)
+    destruct (IH free rest (P ++ f ++ pad) (zlen P + zlen f) n) as (kids & fs & El & kids' & Ek & Em & Eattr);
+      try lia.
+    { rewrite !zlen_app, Lpad. lia. }
+    { rewrite !zlen_app, Lpad. replace (zlen P + (zlen f + (align8 (zlen f) - zlen f)))
+        with (zlen P + align8 (zlen f)) by lia.
+      rewrite Z.add_mod by lia. rewrite HM, Mf. reflexivity. }
+    replace ((P ++ f ++ pad) ++ flay r ++ zrepeat 255 free ++ rest)
+      with (P ++ flay (f :: r) ++ zrepeat 255 free ++ rest) in El
+      by (cbn [flay]; fold pad; rewrite <- !app_assoc; reflexivity).
+    replace (zlen (P ++ f ++ pad) + zlen (flay r) + free) with len in El
+      by (rewrite !zlen_app, Lpad; unfold len; lia).
+    rewrite El. cbn [bind].
+    exists (NFile h f ks :: kids), fs. split; [reflexivity|].
+    cbn [Ffs.asm_elems]. rewrite Ea. cbn [bind]. rewrite Ek. cbn [bind].
+    exists (NFile h' f ks' :: kids'). split; [reflexivity|].
+    cbn [map node_buf node_attr]. rewrite Em, Eattr, Eat', Eat. split; reflexivity.
+Qed.
+
+(* ---------- volumes: placing the files again ---------- *)
+
+Lemma align_fix x b : 0 < b -> 0 <= x -> x mod b = 0 -> align x b = x.
+Proof.
+  intros Hb Hx Hm. unfold align.
+  pose proof (Z.div_mod x b ltac:(lia)) as D. rewrite Hm in D.
+  replace (x + b - 1) with ((b - 1) + (x / b) * b) by lia.
+  rewrite Z.div_add by lia. rewrite (Z.div_small (b - 1) b) by lia. lia.
+Qed.
+
+Lemma attr_align_pos a : 0 < attr_align a.
+Proof.
+  unfold attr_align.
+  set (v := Z.lor _ _). generalize (Z.to_nat v). intros k.
+  assert (F : Forall (fun x => 0 < x) file_alignments) by (repeat constructor).
+  revert k. generalize file_alignments F. clear. intros l F.
+  induction F as [|x l Hx Hl IH]; intros [|k]; cbn [nth]; try lia; auto.
+Qed.
+
+(* what place_files appends: before each file, erased bytes up to the next 8-byte boundary *)
+Fixpoint play (u : Z) (files : list bytes) : bytes :=
+  match files with
+  | [] => []
+  | f :: r => zrepeat 255 (align8 u - u) ++ f ++ play (align8 u + zlen f) r
+  end.
+
+Lemma place_files_play kids : forall limit acc,
+  Forall (fun k => 0 < zlen (node_buf k)) kids ->
+  files_aligned (align8 (zlen acc)) (map node_buf kids) = true ->
+  map node_attr kids = map (rd 19 1) (map node_buf kids) ->
+  (match limit with Some l => zlen acc + zlen (play (zlen acc) (map node_buf kids)) <= l | None => True end) ->
+  place_files 255 limit acc (zlen acc) kids = Ok (acc ++ play (zlen acc) (map node_buf kids)).
+Proof.
+  induction kids as [|k r IH]; intros limit acc Hpos Hal Hattr Hlim.
+  - cbn [place_files map play]. rewrite app_nil_r. reflexivity.
+  - cbn [map] in *. inversion Hpos as [|? ? Hk Hr]; subst.
+    cbn [files_aligned] in Hal. apply andb_true_iff in Hal as [Ha1 Ha2].
+    injection Hattr as Eattr Hattr'.
+    pose proof (zlen_nonneg acc) as Hacc. destruct (align8_spec (zlen acc) Hacc) as [B8 M8].
+    set (u := zlen acc) in *. set (a := align8 u) in *. set (fb := node_buf k) in *.
+    cbn [place_files play]. fold fb.
+    replace (match k with NFile h _ _ => f_attr h | _ => 0 end) with (node_attr k) by reflexivity.
+    rewrite Eattr. fold u a.
+    replace (zlen fb =? 0) with false by lia.
+    (* alignment holds at the natural position: no pad file is inserted *)
+    match goal with |- context [if attr_align (rd 19 1 fb) =? 1 then a else ?e] =>
+      replace (if attr_align (rd 19 1 fb) =? 1 then a else e) with a end.
+    2:{ unfold file_aligned in Ha1. destruct (attr_align (rd 19 1 fb) =? 1) eqn:E1; [reflexivity|].
+      cbn [orb] in Ha1. apply Z.eqb_eq in Ha1.
+      assert (0 <= file_hlen (rd 19 1 fb)) by (unfold file_hlen; destruct (attr_large _); lia).
+      rewrite align_fix by (auto using attr_align_pos; lia).
+      replace (a + file_hlen (rd 19 1 fb) - file_hlen (rd 19 1 fb) - a) with 0 by lia.
+      change ((8 <=? 0) && (0 <? 24)) with false. cbv iota. lia. }
+    cbn [play] in Hlim. fold u a fb in Hlim.
+    assert (Lp : zlen (zrepeat 255 (a - u)) = a - u) by (apply zlen_zrepeat; lia).
+    pose proof (zlen_nonneg (play (a + zlen fb) (map node_buf r))) as Hpl.
+    replace (match limit with Some l => l <? a + zlen fb | None => false end) with false.
+    2:{ destruct limit as [l|]; [|reflexivity]. rewrite !zlen_app, Lp in Hlim. lia. }
+    replace (a =? a) with true by lia. cbn [bind].
+    unfold insert_file. fold u. replace (a <? u) with false by lia.
+    replace (zlen fb =? 0) with false by lia. cbn [bind].
+    set (acc' := acc ++ zrepeat 255 (a - u) ++ fb).
+    assert (La : zlen acc' = a + zlen fb) by (unfold acc'; rewrite !zlen_app, Lp; fold u; lia).
+    rewrite <- La. rewrite IH; auto.
+    + rewrite La. unfold acc'. rewrite <- !app_assoc. reflexivity.
+    + rewrite La. replace (align8 (a + zlen fb)) with (a + align8 (zlen fb)); [exact Ha2|].
+      symmetry. apply align8_add; lia.
+    + destruct limit as [l|]; [|exact I]. rewrite La. rewrite !zlen_app, Lp in Hlim. lia.
+Qed.
+
+Lemma play_flay files : forall acc free, 0 <= free ->
+  acc ++ zrepeat 255 (align8 (zlen acc) - zlen acc) ++ flay files ++ zrepeat 255 free =
+  (acc ++ play (zlen acc) files) ++
+  zrepeat 255 (align8 (zlen acc) + zlen (flay files) + free - zlen (acc ++ play (zlen acc) files)).
+Proof.
+  induction files as [|f r IH]; intros acc free Hfree.
+  - cbn [flay play app]. rewrite app_nil_r. change (zlen (@nil Z)) with 0.
+    pose proof (zlen_nonneg acc) as Ha. destruct (align8_spec (zlen acc) Ha) as [B _].
+    rewrite zrepeat_app by lia. f_equal. f_equal. lia.
+  - pose proof (zlen_nonneg acc) as Ha. destruct (align8_spec (zlen acc) Ha) as [B M].
+    pose proof (zlen_nonneg f) as Hf. destruct (align8_spec (zlen f) Hf) as [Bf Mf].
+    set (u := zlen acc) in *. set (a := align8 u) in *.
+    cbn [flay play]. fold u a.
+    set (acc' := acc ++ zrepeat 255 (a - u) ++ f).
+    assert (La : zlen acc' = a + zlen f).
+    { unfold acc'. rewrite !zlen_app, zlen_zrepeat by lia. fold u. lia. }
+    assert (Ea : align8 (zlen acc') = a + align8 (zlen f)) by (rewrite La; apply align8_add; lia).
+    specialize (IH acc' free Hfree). rewrite Ea, La in IH.
+    replace (a + align8 (zlen f) - (a + zlen f)) with (align8 (zlen f) - zlen f) in IH by lia.
+    replace (acc ++ zrepeat 255 (a - u) ++ (f ++ zrepeat 255 (align8 (zlen f) - zlen f) ++ flay r) ++ zrepeat 255 free)
+      with (acc' ++ zrepeat 255 (align8 (zlen f) - zlen f) ++ flay r ++ zrepeat 255 free)
+      by (unfold acc'; rewrite <- !app_assoc; reflexivity).
+    rewrite IH.
+    replace (acc ++ zrepeat 255 (a - u) ++ f ++ play (a + zlen f) r) with (acc' ++ play (a + zlen f) r)
+      by (unfold acc'; rewrite <- !app_assoc; reflexivity).
+    f_equal. f_equal. rewrite !zlen_app. rewrite (zlen_zrepeat 255 (align8 (zlen f) - zlen f)) by lia. lia.
+Qed.
+
+(* ---------- volumes: the header ---------- *)
+
+Lemma le1' v : zlen (le_enc 1 v) = 1. Proof. exact (zlen_le_enc 1 v). Qed.
+Lemma le2' v : zlen (le_enc 2 v) = 2. Proof. exact (zlen_le_enc 2 v). Qed.
+Lemma le4' v : zlen (le_enc 4 v) = 4. Proof. exact (zlen_le_enc 4 v). Qed.
+Lemma le8' v : zlen (le_enc 8 v) = 8. Proof. exact (zlen_le_enc 8 v). Qed.
+
+Lemma zlen_fv_header zero g len attrs ck reserved rev count bsize :
+  zlen zero = 16 -> zlen g = 16 ->
+  zlen (fv_header zero g len attrs ck reserved rev count bsize) = 72.
+Proof.
+  intros Lz Lg. unfold fv_header. rewrite !zlen_app, Lz, Lg, !le8', !le4', !le2', zlen_zrepeat by lia.
+  reflexivity.
+Qed.
+
+Lemma fv_header_fields zero g len attrs ck reserved rev count bsize tail :
+  zlen zero = 16 -> zlen g = 16 -> 0 <= len < 2 ^ 64 -> 0 <= attrs < 2 ^ 32 -> 0 <= ck < 65536 ->
+  let b := fv_header zero g len attrs ck reserved rev count bsize ++ tail in
+  sub 0 16 b = zero /\ sub 16 16 b = g /\ rd 32 8 b = len /\ rd 40 4 b = 1213613663 /\
+  rd 44 4 b = attrs /\ rd 48 2 b = 72 /\ rd 50 2 b = ck /\ rd 52 2 b = 0 /\
+  rd 54 1 b = reserved /\ rd 55 1 b = rev /\
+  zskipn 56 b = le_enc 4 count ++ le_enc 4 bsize ++ zrepeat 0 8 ++ tail.
+Proof.
+  intros Lz Lg Hlen Hat Hck b. unfold b, fv_header. rewrite <- !app_assoc.
+  repeat split.
+  - apply sub_app_here; auto.
+  - rewrite (sub_app_skip _ _ 16 16 16) by (auto; lia). change (16 - 16) with 0. apply sub_app_here; auto.
+  - rewrite (rd_app_skip _ _ 32 8 16) by (auto; lia). change (32 - 16) with 16.
+    rewrite (rd_app_skip _ _ 16 8 16) by (auto; lia). change (16 - 16) with 0.
+    rewrite rd_app_here by apply le8'. apply le_dec_enc. change (256 ^ Z.of_nat 8) with (2 ^ 64). lia.
+  - rewrite (rd_app_skip _ _ 40 4 16) by (auto; lia). change (40 - 16) with 24.
+    rewrite (rd_app_skip _ _ 24 4 16) by (auto; lia). change (24 - 16) with 8.
+    rewrite (rd_app_skip _ _ 8 4 8) by (try apply le8'; lia). change (8 - 8) with 0.
+    rewrite (rd_app_here [95; 70; 86; 72]) by reflexivity. reflexivity.
+  - rewrite (rd_app_skip _ _ 44 4 16) by (auto; lia). change (44 - 16) with 28.
+    rewrite (rd_app_skip _ _ 28 4 16) by (auto; lia). change (28 - 16) with 12.
+    rewrite (rd_app_skip _ _ 12 4 8) by (try apply le8'; lia). change (12 - 8) with 4.
+    rewrite (rd_app_skip [95; 70; 86; 72] _ 4 4 4) by (try reflexivity; lia). change (4 - 4) with 0.
+    rewrite rd_app_here by apply le4'. apply le_dec_enc. change (256 ^ Z.of_nat 4) with (2 ^ 32). lia.
+  - rewrite (rd_app_skip _ _ 48 2 16) by (auto; lia). change (48 - 16) with 32.
+    rewrite (rd_app_skip _ _ 32 2 16) by (auto; lia). change (32 - 16) with 16.
+    rewrite (rd_app_skip _ _ 16 2 8) by (try apply le8'; lia). change (16 - 8) with 8.
+    rewrite (rd_app_skip [95; 70; 86; 72] _ 8 2 4) by (try reflexivity; lia). change (8 - 4) with 4.
+    rewrite (rd_app_skip _ _ 4 2 4) by (try apply le4'; lia). change (4 - 4) with 0.
+    rewrite rd_app_here by apply le2'. reflexivity.
+  - rewrite (rd_app_skip _ _ 50 2 16) by (auto; lia). change (50 - 16) with 34.
+    rewrite (rd_app_skip _ _ 34 2 16) by (auto; lia). change (34 - 16) with 18.
+    rewrite (rd_app_skip _ _ 18 2 8) by (try apply le8'; lia). change (18 - 8) with 10.
+    rewrite (rd_app_skip [95; 70; 86; 72] _ 10 2 4) by (try reflexivity; lia). change (10 - 4) with 6.
+    rewrite (rd_app_skip _ _ 6 2 4) by (try apply le4'; lia). change (6 - 4) with 2.
+    rewrite (rd_app_skip _ _ 2 2 2) by (try apply le2'; lia). change (2 - 2) with 0.
+    rewrite rd_app_here by apply le2'. apply le_dec_enc. change (256 ^ Z.of_nat 2) with 65536. lia.
+  - rewrite (rd_app_skip _ _ 52 2 16) by (auto; lia). change (52 - 16) with 36.
+    rewrite (rd_app_skip _ _ 36 2 16) by (auto; lia). change (36 - 16) with 20.
+    rewrite (rd_app_skip _ _ 20 2 8) by (try apply le8'; lia). change (20 - 8) with 12.
+    rewrite (rd_app_skip [95; 70; 86; 72] _ 12 2 4) by (try reflexivity; lia). change (12 - 4) with 8.
+    rewrite (rd_app_skip _ _ 8 2 4) by (try apply le4'; lia). change (8 - 4) with 4.
+    rewrite (rd_app_skip _ _ 4 2 2) by (try apply le2'; lia). change (4 - 2) with 2.
+    rewrite (rd_app_skip _ _ 2 2 2) by (try apply le2'; lia). change (2 - 2) with 0.
+    rewrite rd_app_here by apply le2'. reflexivity.
+  - rewrite (rd_app_skip _ _ 54 1 16) by (auto; lia). change (54 - 16) with 38.
+    rewrite (rd_app_skip _ _ 38 1 16) by (auto; lia). change (38 - 16) with 22.
+    rewrite (rd_app_skip _ _ 22 1 8) by (try apply le8'; lia). change (22 - 8) with 14.
+    rewrite (rd_app_skip [95; 70; 86; 72] _ 14 1 4) by (try reflexivity; lia). change (14 - 4) with 10.
+    rewrite (rd_app_skip _ _ 10 1 4) by (try apply le4'; lia). change (10 - 4) with 6.
+    rewrite (rd_app_skip _ _ 6 1 2) by (try apply le2'; lia). change (6 - 2) with 4.
+    rewrite (rd_app_skip _ _ 4 1 2) by (try apply le2'; lia). change (4 - 2) with 2.
+    rewrite (rd_app_skip _ _ 2 1 2) by (try apply le2'; lia). change (2 - 2) with 0.
+    cbn [app]. apply rd_cons_here.
+  - rewrite (rd_app_skip _ _ 55 1 16) by (auto; lia). change (55 - 16) with 39.
+    rewrite (rd_app_skip _ _ 39 1 16) by (auto; lia). change (39 - 16) with 23.
+    rewrite (rd_app_skip _ _ 23 1 8) by (try apply le8'; lia). change (23 - 8) with 15.
+    rewrite (rd_app_skip [95; 70; 86; 72] _ 15 1 4) by (try reflexivity; lia). change (15 - 4) with 11.
+    rewrite (rd_app_skip _ _ 11 1 4) by (try apply le4'; lia). change (11 - 4) with 7.
+    rewrite (rd_app_skip _ _ 7 1 2) by (try apply le2'; lia). change (7 - 2) with 5.
+    rewrite (rd_app_skip _ _ 5 1 2) by (try apply le2'; lia). change (5 - 2) with 3.
+    rewrite (rd_app_skip _ _ 3 1 2) by (try apply le2'; lia). change (3 - 2) with 1.
+    cbn [app]. rewrite rd_cons_skip by lia. apply rd_cons_here.
+  - set (fixed := zero ++ g ++ le_enc 8 len ++ [95; 70; 86; 72] ++ le_enc 4 attrs ++ le_enc 2 72 ++
+                  le_enc 2 ck ++ le_enc 2 0 ++ [reserved; rev]).
+    assert (L : zlen fixed = 56).
+    { unfold fixed. rewrite !zlen_app, Lz, Lg, le8', le4', !le2'. reflexivity. }
+    replace (zero ++ g ++ le_enc 8 len ++ [95; 70; 86; 72] ++ le_enc 4 attrs ++ le_enc 2 72 ++
+             le_enc 2 ck ++ le_enc 2 0 ++ [reserved; rev] ++ le_enc 4 count ++ le_enc 4 bsize ++ zrepeat 0 8 ++ tail)
+      with (fixed ++ le_enc 4 count ++ le_enc 4 bsize ++ zrepeat 0 8 ++ tail)
+      by (unfold fixed; rewrite <- !app_assoc; reflexivity).
+    rewrite <- L. apply zskipn_app_exact.
+Qed.
+
+Lemma parse_blocks_one count bsize tail n : 0 <= count < 2 ^ 32 -> 0 <= bsize < 2 ^ 32 ->
+  (count =? 0) && (bsize =? 0) = false -> (2 <= n)%nat ->
+  parse_blocks n (le_enc 4 count ++ le_enc 4 bsize ++ zrepeat 0 8 ++ tail) = Ok [(count, bsize)].
+Proof.
+  intros Hc Hs Hnz Hn. destruct n as [|[|n]]; try lia.
+  pose proof (zlen_nonneg tail).
+  cbn [parse_blocks]. rewrite !zlen_app, !le4', zlen_zrepeat by lia.
+  replace (4 + (4 + (8 + zlen tail)) <? 8) with false by lia.
+  rewrite rd_app_here by apply le4'.
+  rewrite (rd_app_skip _ _ 4 4 4) by (try apply le4'; lia). change (4 - 4) with 0.
+  rewrite rd_app_here by apply le4'.
+  rewrite !le_dec_enc by (change (256 ^ Z.of_nat 4) with (2 ^ 32); lia).
+  rewrite Hnz.
+  replace (zskipn 8 (le_enc 4 count ++ le_enc 4 bsize ++ zrepeat 0 8 ++ tail)) with (zrepeat 0 8 ++ tail).
+  2:{ rewrite app_assoc. symmetry.
+      assert (L : zlen (le_enc 4 count ++ le_enc 4 bsize) = 8) by (rewrite zlen_app, !le4'; reflexivity).
+      rewrite <- L. apply zskipn_app_exact. }
+  cbn [parse_blocks].
+  change (zrepeat 0 8) with ([0; 0; 0; 0] ++ [0; 0; 0; 0]). rewrite <- app_assoc.
+  rewrite !zlen_app. change (zlen [0; 0; 0; 0]) with 4.
+  replace (4 + (4 + zlen tail) <? 8) with false by lia.
+  rewrite (rd_app_here [0; 0; 0; 0]) by reflexivity.
+  rewrite (rd_app_skip [0; 0; 0; 0] _ 4 4 4) by (try reflexivity; lia). change (4 - 4) with 0.
+  rewrite (rd_app_here [0; 0; 0; 0]) by reflexivity.
+  change (le_dec [0; 0; 0; 0]) with 0. change ((0 =? 0) && (0 =? 0)) with true. cbv iota.
+  cbn [bind]. reflexivity.
+Qed.
+
+(* ---------- volumes: header fix-ups are the identity on a well-formed header ---------- *)
+
+Lemma splice_mid A d d' C : zlen d = zlen d' -> splice (zlen A) d (A ++ d' ++ C) = A ++ d ++ C.
+Proof.
+  intros L. unfold splice. rewrite zfirstn_app_exact. f_equal. f_equal.
+  rewrite L. rewrite app_assoc. rewrite <- zlen_app. apply zskipn_app_exact.
+Qed.
+
+Lemma zlen_flay_ge files : Forall (fun f => 24 <= zlen f) files ->
+  24 * Z.of_nat (length files) <= zlen (flay files).
+Proof.
+  induction 1 as [|f r Hf Hr IH]; [cbn; unfold zlen; cbn; lia|].
+  rewrite zlen_flay_cons. cbn [length]. pose proof (zlen_nonneg f) as Hn.
+  destruct (align8_spec (zlen f) Hn) as [B _]. lia.
+Qed.
+
+Lemma bytes_ok_flay files : Forall (fun f => bytes_ok f = true) files -> bytes_ok (flay files) = true.
+Proof.
+  induction 1 as [|f r Hf Hr IH]; [reflexivity|].
+  cbn [flay]. rewrite !bytes_ok_app, Hf, IH, bytes_ok_zrepeat by lia. reflexivity.
+Qed.
+
+Lemma zlen_play_le files : forall u, 0 <= u ->
+  zlen (play u files) <= (align8 u - u) + zlen (flay files).
+Proof.
+  induction files as [|f r IH]; intros u Hu.
+  - cbn [play flay]. change (zlen (@nil Z)) with 0. destruct (align8_spec u Hu). lia.
+  - cbn [play]. rewrite zlen_flay_cons. destruct (align8_spec u Hu) as [B M].
+    pose proof (zlen_nonneg f) as Hf. destruct (align8_spec (zlen f) Hf) as [Bf Mf].
+    rewrite !zlen_app, zlen_zrepeat by lia.
+    specialize (IH (align8 u + zlen f) ltac:(lia)).
+    rewrite align8_add in IH by lia. lia.
+Qed.
+
+Definition vol_ok (vb : bytes) : Prop :=
+  bytes_ok vb = true /\ 72 <= zlen vb /\
+  exists d0, forall d, (d0 <= d)%nat -> forall pol rest off rz, (pol = 240 \/ pol = 255) ->
+    exists h kids, parse_fv d pol (vb ++ rest) off rz = Ok (NVol h vb kids, 255) /\
+      v_length h = zlen vb /\
+      forall ffs, exists h' kids',
+        asm (NVol h vb kids) (255, ffs) = Ok (NVol h' vb kids', (255, ffs)).
+
+(* ---------- R9: a volume of files ---------- *)
+
+Theorem vol_ok_files zero g attrs reserved rev count bsize files free :
+  zlen zero = 16 -> bytes_ok zero = true -> (g = FFS2 \/ g = FFS3) ->
+  0 <= attrs < 2 ^ 32 -> Z.land attrs 2048 <> 0 ->
+  0 <= reserved < 256 -> 0 <= rev < 256 ->
+  0 <= count < 2 ^ 32 -> 0 <= bsize < 2 ^ 32 -> (count =? 0) && (bsize =? 0) = false ->
+  Forall file_ok files -> files_aligned 72 files = true -> 0 <= free ->
+  72 + zlen (flay files) + free < 2 ^ 64 ->
+  vol_ok (vol_bytes zero g attrs reserved rev count bsize files free).
+Proof.
+  intros Lz Oz Hg Hat Hpol Hres Hrev Hc Hs Hnz Hfiles Hal Hfree Hlen.
+  assert (Lg : zlen g = 16) by (destruct Hg as [-> | ->]; reflexivity).
+  assert (Og : bytes_ok g = true) by (destruct Hg as [-> | ->]; reflexivity).
+  assert (Sg : supported_fv g = true) by (destruct Hg as [-> | ->]; reflexivity).
+  pose proof (zlen_nonneg (flay files)) as Hfl.
+  unfold vol_bytes.
+  set (len := 72 + zlen (flay files) + free) in *.
+  set (ck := fv_cksum zero g len attrs reserved rev count bsize).
+  assert (Hck : 0 <= ck < 65536) by (apply Z.mod_pos_bound; lia).
+  set (hdr := fv_header zero g len attrs ck reserved rev count bsize).
+  set (tail := flay files ++ zrepeat 255 free).
+  assert (Lh : zlen hdr = 72) by (apply zlen_fv_header; auto).
+  assert (Lt : zlen tail = zlen (flay files) + free) by (unfold tail; rewrite zlen_app, zlen_zrepeat by lia; reflexivity).
+  assert (Lv : zlen (hdr ++ tail) = len) by (rewrite zlen_app, Lh, Lt; unfold len; lia).
+  assert (Hfb : Forall (fun f => bytes_ok f = true) files)
+    by (eapply Forall_impl; [|exact Hfiles]; intros a (O & _); exact O).
+  assert (Hf24 : Forall (fun f => 24 <= zlen f) files)
+    by (eapply Forall_impl; [|exact Hfiles]; intros a (_ & L & _); lia).
+  replace (hdr ++ flay files ++ zrepeat 255 free) with (hdr ++ tail) by reflexivity.
+  split.
+  { rewrite bytes_ok_app. unfold tail. rewrite bytes_ok_app, bytes_ok_flay, bytes_ok_zrepeat by (auto; lia).
+    unfold hdr, fv_header. rewrite !bytes_ok_app, Oz, Og, !le_enc_ok, bytes_ok_zrepeat by lia.
+    cbn [bytes_ok forallb]. unfold byte_ok. lia. }
+  split; [lia|].
+  destruct (Forall_file_ok_at files Hfiles) as (d1 & Hd1).
+  exists (S (S d1)). intros d Hd pol rest off rz Hpol0.
+  destruct d as [|[|d]]; try lia.
+  (* ---- parse ---- *)
+  destruct (fv_header_fields zero g len attrs ck reserved rev count bsize (tail ++ rest) Lz Lg
+              ltac:(lia) Hat Hck) as (F0 & F16 & F32 & F40 & F44 & F48 & F50 & F52 & F54 & F55 & F56).
+  fold hdr in F0, F16, F32, F40, F44, F48, F50, F52, F54, F55, F56.
+  rewrite app_assoc in F0, F16, F32, F40, F44, F48, F50, F52, F54, F55, F56.
+  set (data := (hdr ++ tail) ++ rest) in *.
+  pose proof (zlen_nonneg rest) as Hrest.
+  assert (Ld : zlen data = len + zlen rest) by (unfold data; rewrite zlen_app, Lv; reflexivity).
+  assert (Epol : fv_polarity attrs = 255).
+  { unfold fv_polarity. destruct (Z.land attrs 2048 =? 0) eqn:E; [lia|reflexivity]. }
+  assert (Esp : set_polarity pol 255 = Some 255) by (destruct Hpol0 as [-> | ->]; reflexivity).
+  assert (Eparse : exists kids fs,
+     parse_fv (S (S d)) pol data off rz =
+       Ok (NVol (mkVol zero g len 1213613663 attrs 72 ck 0 reserved rev [(count, bsize)] [] 0 72 off rz fs)
+                (hdr ++ tail) kids, 255) /\
+     exists kids', asm_elems kids (255, false) = Ok (kids', (255, false)) /\
+       map node_buf kids' = files /\ map node_attr kids' = map (rd 19 1) files).
+  { rewrite parse_fv_S. unfold fv_body. rewrite Ld.
+    replace (len + zlen rest <? 64) with false by lia.
+    rewrite F0, F16, F32, F40, F44, F48, F50, F52, F54, F55, F56.
+    rewrite parse_blocks_one by (auto; lia). cbn [bind].
+    rewrite Epol, Esp.
+    replace (len + zlen rest <? len) with false by lia.
+    replace (len <? 64) with false by lia.
+    change (negb (0 =? 0)) with false. cbn [andb]. cbv iota.
+    change (align8 72) with 72.
+    assert (Esub : sub 0 len data = hdr ++ tail) by (unfold data; apply sub_app_here; exact Lv).
+    rewrite Esub. rewrite Sg. cbn [negb]. cbv iota.
+    assert (G1 : 72 <= zlen hdr < 72 + 8) by lia.
+    assert (G2 : zlen hdr mod 8 = 0) by (rewrite Lh; reflexivity).
+    assert (G3 : (length files < Z.to_nat (len + zlen rest) + 1)%nat).
+    { pose proof (zlen_flay_ge files Hf24) as HG. unfold len. unfold bytes in *. lia. }
+    destruct (files_loop_flay d files (Hd1 (S d) ltac:(lia)) free rest hdr 72
+                (Z.to_nat (len + zlen rest) + 1)%nat Hfree ltac:(lia) G1 G2 G3)
+      as (kids & fs & El & kids' & Ek & Em & Eattr).
+    rewrite Lh in El.
+    replace (hdr ++ flay files ++ zrepeat 255 free ++ rest) with ((hdr ++ tail) ++ rest) in El
+      by (unfold tail; rewrite <- !app_assoc; reflexivity).
+    replace (72 + zlen (flay files) + free) with len in El by reflexivity.
+    fold data in El. rewrite El. cbn [bind].
+    exists kids, fs. split; [reflexivity|]. exists kids'. auto. }
+  destruct Eparse as (kids & fs & Ep & kids' & Ek & Em & Eattr).
+  eexists; eexists. split; [exact Ep|]. cbn [v_length]. split; [symmetry; exact Lv|].
+  (* ---- assemble ---- *)
+  intros ffs. rewrite asm_NVol. cbn [fst snd v_attrs]. rewrite Epol.
+  change (set_polarity 255 255) with (Some 255). cbv beta iota. rewrite Ek. cbn [bind].
+  unfold vol_asm. unfold asm_vol.
+  destruct kids' as [|k0 kr].
+  { cbn [bind]. eexists; eexists; reflexivity. }
+  cbv beta iota. cbn [v_length v_blocks v_dataoff v_hdrlen v_resizable v_guid].
+  set (kids' := k0 :: kr) in *.
+  rewrite Lv. replace (len <? len) with false by lia. change (72 <? 72) with false. cbv iota.
+  rewrite slice_ok by lia. change (72 - 0) with 72. cbn [of_opt bind].
+  assert (Esl : sub 0 72 (hdr ++ tail) = hdr) by (apply sub_app_here; exact Lh).
+  rewrite Esl.
+  (* placing the files *)
+  assert (Hpos : Forall (fun k => 0 < zlen (node_buf k)) kids').
+  { rewrite Forall_forall. intros k Hk. apply (in_map node_buf) in Hk. rewrite Em in Hk.
+    rewrite Forall_forall in Hf24. specialize (Hf24 _ Hk). lia. }
+  pose proof (zlen_play_le files 72 ltac:(lia)) as Hple. change (align8 72 - 72) with 0 in Hple.
+  assert (PP : place_files 255 (if rz then None else Some len) hdr (zlen hdr) kids' =
+               Ok (hdr ++ play (zlen hdr) (map node_buf kids'))).
+  { apply place_files_play; auto.
+    - rewrite Lh, Em. exact Hal.
+    - rewrite Em. exact Eattr.
+    - rewrite Lh, Em. destruct rz; [exact I|]. unfold len. lia. }
+  rewrite Lh, Em in PP. rewrite PP. cbn [bind].
+  set (b1 := hdr ++ play 72 files).
+  assert (Lb1 : zlen b1 = 72 + zlen (play 72 files)) by (unfold b1; rewrite zlen_app, Lh; reflexivity).
+  pose proof (zlen_nonneg (play 72 files)) as Hpl.
+  replace ((len <? zlen b1) && negb rz) with false by lia.
+  replace (len <? zlen b1) with false by lia. cbn [bind].
+  (* erased fill: back to the original bytes *)
+  assert (Eb2 : (if zlen b1 <? len then b1 ++ zrepeat 255 (len - zlen b1) else b1) = hdr ++ tail).
+  { pose proof (play_flay files hdr free Hfree) as PF. rewrite Lh in PF.
+    change (align8 72 - 72) with 0 in PF. change (zrepeat 255 0) with (@nil Z) in PF.
+    cbn [app] in PF. change (align8 72) with 72 in PF. fold b1 len in PF. fold tail in PF.
+    rewrite PF. destruct (zlen b1 <? len) eqn:E; [reflexivity|].
+    replace (len - zlen b1) with 0 by lia. change (zrepeat 255 0) with (@nil Z). rewrite app_nil_r. reflexivity. }
+  rewrite Eb2. rewrite Lv.
+  replace (len <? 40) with false by lia. replace (len <? 60) with false by lia.
+  change (false && bytes_eqb g FFS2) with false. cbv iota.
+  (* the three header writes *)
+  set (A32 := zero ++ g).
+  set (A50 := A32 ++ le_enc 8 len ++ [95; 70; 86; 72] ++ le_enc 4 attrs ++ le_enc 2 72).
+  set (A56 := A50 ++ le_enc 2 ck ++ le_enc 2 0 ++ [reserved; rev]).
+  set (R56 := le_enc 4 bsize ++ zrepeat 0 8 ++ tail).
+  assert (L32 : zlen A32 = 32) by (unfold A32; rewrite zlen_app, Lz, Lg; reflexivity).
+  assert (L50 : zlen A50 = 50) by (unfold A50; rewrite !zlen_app, L32, le8', le4', le2'; reflexivity).
+  assert (L56 : zlen A56 = 56) by (unfold A56; rewrite !zlen_app, L50, !le2'; reflexivity).
+  assert (E32 : hdr ++ tail = A32 ++ le_enc 8 len ++
+                  ([95; 70; 86; 72] ++ le_enc 4 attrs ++ le_enc 2 72 ++ le_enc 2 ck ++ le_enc 2 0 ++
+                   [reserved; rev] ++ le_enc 4 count ++ R56)).
+  { unfold hdr, fv_header, A32, R56. rewrite <- !app_assoc. reflexivity. }
+  assert (E56 : hdr ++ tail = A56 ++ le_enc 4 count ++ R56).
+  { unfold hdr, fv_header, A56, A50, A32, R56. rewrite <- !app_assoc. reflexivity. }
+  assert (E50 : forall c, fv_header zero g len attrs c reserved rev count bsize ++ tail =
+                          A50 ++ le_enc 2 c ++ (le_enc 2 0 ++ [reserved; rev] ++ le_enc 4 count ++ R56)).
+  { intros c. unfold fv_header, A50, A32, R56. rewrite <- !app_assoc. reflexivity. }
+  assert (S32 : splice 32 (le_enc 8 len) (hdr ++ tail) = hdr ++ tail).
+  { rewrite E32 at 1. rewrite <- L32. rewrite splice_mid by reflexivity. symmetry. exact E32. }
+  rewrite S32. rewrite ?Lv. replace (len <? 60) with false by lia. cbv beta iota.
+  assert (S56 : splice 56 (le_enc 4 count) (hdr ++ tail) = hdr ++ tail).
+  { rewrite E56 at 1. rewrite <- L56. rewrite splice_mid by reflexivity. symmetry. exact E56. }
+  rewrite S56.
+  assert (S50 : splice 50 [0; 0] (hdr ++ tail) =
+                fv_header zero g len attrs 0 reserved rev count bsize ++ tail).
+  { unfold hdr. rewrite (E50 ck), (E50 0). rewrite <- L50.
+    change [0; 0] with (le_enc 2 0) at 1. apply splice_mid. rewrite !le2'. reflexivity. }
+  rewrite S50.
+  set (hdr0 := fv_header zero g len attrs 0 reserved rev count bsize).
+  assert (Lh0 : zlen hdr0 = 72) by (apply zlen_fv_header; auto).
+  rewrite slice_ok by (rewrite ?zlen_app, ?Lh0; pose proof (zlen_nonneg tail); lia).
+  change (72 - 0) with 72.
+  assert (Esl0 : sub 0 72 (hdr0 ++ tail) = hdr0) by (apply sub_app_here; exact Lh0).
+  rewrite Esl0.
+  change (Z.even 72) with true. cbn [negb]. cbv iota.
+  change ((0 - sum16 hdr0) mod 65536) with ck.
+  assert (S50' : splice 50 (le_enc 2 ck) (hdr0 ++ tail) = hdr ++ tail).
+  { unfold hdr0, hdr. rewrite (E50 0), (E50 ck). rewrite <- L50. apply splice_mid. rewrite !le2'. reflexivity. }
+  rewrite S50'. cbn [bind]. cbv beta iota. cbn [bind fst snd].
+  eexists; eexists. reflexivity.
+Qed.
+
+(* ---------- R6: firmware-volume-image sections (nesting) ---------- *)
+
+Lemma sec_ok_fv vb : vol_ok vb -> 4 + zlen vb < 16777215 -> sec_ok (sec_bytes 23 vb).
+Proof.
+  intros (Ob & Hl & d0 & Hv) Hn.
+  split; [apply bytes_ok_sec_bytes; auto; lia|]. split; [rewrite zlen_sec_bytes; lia|].
+  exists (S d0). intros d Hd rest order. destruct d as [|d]; [lia|].
+  rewrite parse_section_S.
+  destruct (Hv d ltac:(lia) 255 [] 0 true (or_intror eq_refl)) as (h & kids & Ep & El & Ea).
+  rewrite app_nil_r in Ep.
+  destruct (Ea false) as (h' & kids' & Ea').
+  eexists; eexists. split; [|split].
+  - sec_start 23 vb rest. change (23 =? 2) with false. change (23 =? 21) with false.
+    change (23 =? 20) with false. change (23 =? 23) with true. cbv iota.
+    rewrite zlen_sec_bytes. replace (4 + zlen vb <=? 4) with false by lia.
+    rewrite sec_body_skip. rewrite Ep. cbn [bind]. reflexivity.
+  - cbn [s_ext sec_default]. rewrite zlen_sec_bytes. reflexivity.
+  - rewrite asm_NSec. cbn [Ffs.asm_elems]. rewrite Ea'. cbn [bind]. unfold sec_asm.
+    cbn [map node_buf join4 s_type sec_default s_gd app].
+    change (zlen (@nil Z)) with 0. change (align4 0 - 0) with 0. change (zrepeat 0 0) with (@nil Z).
+    cbn [app]. change (23 =? 2) with false. cbv iota. cbn [bind].
+    match goal with |- context [gen_sec_header ?hh vb] =>
+      destruct (gen_sec_header_plain hh vb eq_refl Hn) as [E1 E2];
+      destruct (gen_sec_header hh vb) as [h2 nb] eqn:G end.
+    cbn [fst snd] in E1, E2. rewrite E1, E2. cbn [s_type sec_default].
+    replace (16777215 <? 4 + zlen vb) with false by lia. eexists; eexists; reflexivity.
 Qed.
 
 End Save.
